@@ -116,7 +116,7 @@ func (tr *Trace) ObjInst() map[int]int {
 // PlanFaultFree: no injected fault, partition, outside write, connection
 // notification or unhealthy result anywhere in the plan.
 func (p *Plan) FaultFree() bool {
-	if len(p.Windows) > 0 {
+	if len(p.Windows) > 0 || len(p.Stalls) > 0 {
 		return false
 	}
 	for _, in := range p.Instances {
@@ -275,4 +275,22 @@ func (p *Plan) PreemptionPossible() bool {
 		}
 	}
 	return false
+}
+
+// overlappedLeaderStops: the Stop / StopWithContext calls on obj that began while it led and during which a
+// Start call on the same object began.
+func (tr *Trace) overlappedLeaderStops(obj int) []*APIRec {
+	var out []*APIRec
+	for _, b := range tr.APIs {
+		if b.Obj != obj || (b.Call != "Stop" && b.Call != "StopWithContext") || (b.Action != nil && b.Action.Kind == ActCancelCtx) || !b.WasLeaderAtCall {
+			continue
+		}
+		for _, a := range tr.APIs {
+			if a.Obj == obj && a.Call == "Start" && a.CallSeq > b.CallSeq && (b.RetSeq < 0 || a.CallSeq < b.RetSeq) {
+				out = append(out, b)
+				break
+			}
+		}
+	}
+	return out
 }
